@@ -40,7 +40,7 @@ inductive RRes (V : Type)
   | nat (n : Nat)
   | keys (l : List RKey)
   | dict (l : List (RKey × V))
-  deriving Repr
+  deriving Repr, DecidableEq
 
 inductive RPhase (V : Type)
   | start
@@ -48,7 +48,7 @@ inductive RPhase (V : Type)
   | readInput (n : String) (todo : List String) (ks : List RKey) (values : Bool)  -- next call: `_lookup(n, input=True)`
   | values (todo : List RKey) (acc : List (RKey × V))                             -- next call: `_lookup(todo.head)`
   | done (r : RRes V)
-  deriving Repr
+  deriving Repr, DecidableEq
 
 variable {V : Type}
 
